@@ -18,6 +18,35 @@ def closure_bodies_passed(body, t):
     return out
 
 
+RESTRICTING = r"::(take|skip|filter|step_by|take_while|skip_while|nth|last|find|find_map|position|min\w*|max\w*|first|get|split_first|split_last|chunks\w*|windows)(::<.*>)?$"
+
+
+def iteration_context(f, raw, bb, depth=0):
+    """the iterations a site executes under, innermost first: [(body, what, iterator atoms)] - enclosing `for` loops of its body and, when the body is a
+    closure or async block, the iterator adaptor (map / flat_map / for_each / ..) its parent passes it to, then the parent's own context"""
+    out = []
+    if depth > 6:
+        return out
+    for (nbb, sbb, ne, se, blks, it_atoms) in for_loops(raw):
+        if bb in blks:
+            out.append((raw, "for", it_atoms))
+    if raw.kind == "Closure" or raw.coroutine:
+        p = f.bodies.get(raw.parent) if raw.parent else None
+        if p is not None and not (raw.coroutine and "Fn" in str(raw.coroutine)):
+            for blk in p.normal_blocks():
+                for st in blk["stmts"]:
+                    rv = st["rv"]
+                    if rv["k"] == "agg" and (rv.get("closure") == raw.name or rv.get("coroutine") == raw.name):
+                        fl = p.prov.flows_forward(st["lhs"]["local"])
+                        for cb, t in p.calls():
+                            if any(operand_local(a) in fl for a in t["args"][1:]) and re.search(r"Iterator>?::\w+(::<.*>)?$|::for_each|::map|::flat_map", callee_decl(t)):
+                                out.append((p, callee_base(t).split("::")[-1], p.prov.operand_atoms(t["args"][0])))
+                        out += iteration_context(f, p, blk["id"], depth + 1)
+        elif p is not None:
+            pass  # the async body of an `async fn`: its callers' iterations are not part of this function
+    return out
+
+
 def subtree(f, fn_name):
     """bodies lexically inside a fn item (its closures / async blocks), including itself"""
     return [b for n, b in f.bodies.items() if n == fn_name or n.startswith(fn_name + "::{")]
@@ -357,14 +386,27 @@ def consumers_see_all(ctx):
                 other = [e for e in exits if not (ne is not None and e.src == ne.src and e.dst == ne.dst)]
                 ok = not other and not [c for c in atom_callres(it_atoms) if re.search(r"::(take|skip|filter|step_by)$", c)]
         ctx.check(ok, f"{short(w.name)}/all-file-resources", [w.loc()], "the watcher does not cover every file resource of the input (inherited ones would not be watched)", props=["C13", "C06"])
-    # the listing entry points map over all resources / all paths
-    for ln in r.listers():
-        callers = {r.outer_fn(cb).name for (cb, bb, t) in r.callers_of(f.bodies[ln])}
-        for c in callers:
-            cb = f.coroutine_of(c) or f.bodies[c]
-            maps = [(bb, t) for bb, t in cb.calls() if re.search(r"Iterator>::map(::<.*>)?$", callee_decl(t))]
-            whole = [bb for bb, t in maps if not [x for x in atom_callres(cb.prov.operand_atoms(t["args"][0])) if re.search(r"::(take|skip|filter|step_by)$", x)]]
-            ctx.check(bool(whole) and len(whole) == len(maps), f"{short(c)}/all-paths", [cb.loc()], "the listing does not map over every declared path", props=["C13"])
+    # the per-path lister is called once for every declared path of every resource: each of its call sites sits under iterations (loops / iterator
+    # adaptors given a closure) none of which is restricted
+    level = list(r.listers())
+    seen_fns = set(level)
+    for depth in range(3):
+        nxt = []
+        for ln in level:
+            for (cn, bb) in f.cg.call_sites.get(ln, ()):
+                raw = f.bodies[cn]
+                if bb is None or f.is_derived(raw):
+                    continue
+                steps = iteration_context(f, raw, bb)
+                restricted = sorted({c for (_, what, at) in steps for c in atom_callres(at) if re.search(RESTRICTING, c)} | {w for (_, w, at) in steps if re.search(RESTRICTING, "::" + w)})
+                outer = r.fn_of(r.outer_fn(raw)).name
+                if depth == 0 or steps:
+                    ctx.check((bool(steps) or depth > 0) and not restricted, f"{short(outer)}/all-paths", [site(raw, bb)],
+                              "the listing does not range over every declared path / resource" + (f" (restricted by {restricted})" if restricted else " (the per-path lister is not called under an iteration)"), props=["C13"])
+                if outer not in seen_fns:
+                    seen_fns.add(outer)
+                    nxt.append(outer)
+        level = nxt
 
 
 # ------------------------------------------------------------------ C15
@@ -839,7 +881,8 @@ def from_input_list_intact(ctx):
         odd = sorted(c for c in atom_callres(it_atoms) if re.search(r"::(filter|filter_map|partition|skip|take|take_while|skip_while|step_by|retain|dedup\w*|drain|truncate|split_off)(::<.*>)?$", c))
         # the list must reach the loop as the transformation returned it: a crate-local function in between may drop entries
         inner = f.cg.reach(list(tfn), cross_spawn=False)
-        odd += sorted(short(c) for c in atom_callres(it_atoms) if c in f.bodies and c not in tfn and c not in inner and not f.is_derived(f.bodies[c]))
+        spliced = {callee_base(t) for _, t in b.calls() if t.get("inlined") or t.get("inlined_async")}   # their code is part of this view: judged by what it does
+        odd += sorted(short(c) for c in atom_callres(it_atoms) if c in f.bodies and c not in tfn and c not in inner and c not in spliced and not f.is_derived(f.bodies[c]))
         ctx.check(not odd, f"{short(b.name)}/loop-over-whole-list", [site(b, nbb)], f"the inheritance loop ranges over a filtered list ({odd}): some `X.output` producer is neither validated nor inherited")
     ctx.check(ok, f"{short(b.name)}/loop", [b.loc()], "no loop over the `X.output` producers that extends the consumer's input")
     muts = []
